@@ -204,13 +204,13 @@ def _index_events(inp, letters):
     return dict(op="Build", logged=False)
 
 
-def build_session(sid, inp, letters=AA, api=None, with_output=True, with_internal=True, lookups=None):
+def build_session(sid, inp, letters=AA, api=None, with_output=True, with_internal=True, lookups=None, container="list", output="ndarray"):
     """Execute the public calls of one session against the real code and log one event per spec action."""
     events = []
     raised = None
     ret = []
     try:
-        ret = norm_triplets(call_engine(inp, letters, api=api), inp["mode"])
+        ret = norm_triplets(call_engine(inp, letters, api=api, container=container), inp["mode"])
     except Exception as e:        # noqa: BLE001 - any exception on a valid input is an observation
         raised = e
     events.append(dict(op="CheckInput", raised=isinstance(raised, AssertionError)))
@@ -219,12 +219,13 @@ def build_session(sid, inp, letters=AA, api=None, with_output=True, with_interna
                        exc=(type(raised).__name__ + ": " + str(raised)[:200]) if raised is not None else ""))
     if with_output:
         try:
-            dense = norm_dense(call_engine(inp, letters, api=api, output_type="ndarray"), inp["mode"])
+            out = call_engine(inp, letters, api=api, output_type=output, container=container)
+            dense = norm_dense(out.toarray() if output == "coo_matrix" else out, inp["mode"])
             events.append(dict(op="Output", raised=False, dense=dense))
         except Exception as e:    # noqa: BLE001
             events.append(dict(op="Output", raised=True, dense=[], exc=type(e).__name__ + ": " + str(e)[:200]))
     return dict(sid=sid, inp=inp, api=api or "", letters=letters, events=events, kind="plain",
-                with_output=with_output, with_internal=with_internal)
+                with_output=with_output, with_internal=with_internal, container=container, output=output)
 
 
 def _snapshot(db):
@@ -281,7 +282,8 @@ def rebuild_session(s):
     if s.get("kind") == "db":
         return build_db_session(s["sid"], s["inp"], s["lookups"], letters=s["letters"], with_internal=s.get("with_internal", True))
     return build_session(s["sid"], s["inp"], letters=s["letters"], api=s["api"] or None,
-                         with_output=s.get("with_output", True), with_internal=s.get("with_internal", True))
+                         with_output=s.get("with_output", True), with_internal=s.get("with_internal", True),
+                         container=s.get("container", "list"), output=s.get("output", "ndarray"))
 
 
 # ------------------------------------------------------------------ validating sessions with TLC
